@@ -29,11 +29,18 @@ LEAN_MODULE_EXTRA += ['CC.Properties.C04More']
 THEOREMS += ['CC.C04_reported_scale', 'CC.C04_reported_zero_all', 'CC.C04_reported_superpose_current',
              'CC.C04_lossy_current_counterexample', 'CC.C04_reported_lossy_current_counterexample',
              'CC.withSrc_wf', 'CC.withSrc_wellPosed', 'CC.C04_scale_factor_is_abs_sq']
+# round 5b: the composed link to the library's own zeroing operations, record-class change included (CC/Properties/C04Zeroing.lean)
+LEAN_MODULE_EXTRA += ['CC.Properties.C04Zeroing']
+THEOREMS += ['CC.circuitEqsAll_map_elecEq', 'CC.C04_zeroing_is_withSrc',
+             'CC.C04_zeroed_branch_voltage', 'CC.C04_zeroed_branch_current', 'CC.C04_zeroed_branch_both', 'CC.C04_zeroed_not_lossy',
+             'CC.C04_zero_voltage_solutions', 'CC.C04_zero_current_solutions', 'CC.C04_deactivate_solutions',
+             'CC.C04_deactivate_solutions_withSrc', 'CC.deactivateOthers_ok', 'CC.deactivateOthers_wf',
+             'CC.C04_zeroing_superpose', 'CC.C04_reported_zeroing_superpose', 'CC.C04_zeroing_lossy_sum_fails']
 OPEN_STATEMENTS = ['C04_superpose / C04_reported_superpose_current are PARTIAL: they exclude the reported current of linear (lossy) sources by hypothesis (isLossy = false in all three networks) — the full statement is false for the current code (open finding C04), now kernel-checked: C04_lossy_current_counterexample (Spec level) and C04_reported_lossy_current_counterexample (values get_current returns: -3/2 != -2 + -1/2 for Vq=8V,Z=2 parallel Iq=1A,Y=1/2); only the physical current of such a branch superposes (C04_linear)',
                    'C04_reported_scale (any scale factor, zero included; potentials, voltages, reported currents incl. lossy sources, power by a*conj a) and C04_reported_zero_all are exact-arithmetic statements about every solution vector of the matrix equations of a valid (no self-loop), well-posed skeleton; floating-point rounding and ill-posed networks are covered by the oracle only; conj is an arbitrary ring endomorphism; a*conj a = |a|^2 is proved for the Gaussian rationals of the driver (C04_scale_factor_is_abs_sq), not for the complex numbers of Mathlib',
-                   'the link from short_circuitify_voltage_sources / open_circuitify_current_sources to `withSrc … 0` is C16_zero_*_spec plus the structural correspondence, not one composed theorem',
-                   'superposition for skeletons in which the zeroing operation changes the record class (Thevenin lossy source zeroed into a Norton impedance): electrically the same immittance; covered by the metamorphic oracle']
-ASSUMPTIONS = ['theorems are about the Spec over a fixed skeleton; the link to the library operations is C16_zero_*_spec plus the structural correspondence',
+                   'the link from short_circuitify_voltage_sources / open_circuitify_current_sources to `withSrc … 0`: PROVED in round 5b for the model (CC/Properties/C04Zeroing.lean) — C04_zero_voltage_solutions / C04_zero_current_solutions / C04_deactivate_solutions: the returned network has exactly the solutions (potentials, voltages AND reported currents, the same report) of the skeleton of the input with every non-exempt source value set to 0, and that skeleton is a withSrc (C04_zeroing_is_withSrc, distinct ids); composed with C04_linear and C01_unique into C04_zeroing_superpose / C04_reported_zeroing_superpose (two groups of sources, each part solved after the library\'s own zeroing operations). What remains outside: model = Python code is C16_gen_shortCircuitifyVS / C16_gen_openCircuitifyCS plus the structural correspondence; exact arithmetic; well-posed N with distinct ids; two groups (more by iteration, not stated); the order voltage-then-current zeroing used by the oracle (the branch-level lemma C04_zeroed_branch_both covers both orders)',
+                   'the record-class change when a source is zeroed (Thevenin record zeroed into a Norton impedance and vice versa): PROVED electrically invisible in round 5b — C04_zeroed_branch_voltage / _current / _both (same terminals, identifier, zero set of the element law, reference direction of the reported current as the skeleton record with source value 0), C04_zeroed_not_lossy (the zeroed record reports its current first→second, the active lossy source in generator direction). Consequence stated exactly in C04_zeroing_superpose: reported currents add on every non-lossy branch; for a lossy source of group A i = i_A − i_B (group B: i_B − i_A), NOT the sum — the open finding C04, witnessed over the library\'s own zeroing by C04_zeroing_lossy_sum_fails (−3/2 ≠ −2 + −1/2, = −2 − (−1/2))']
+ASSUMPTIONS = ['C04.lean / C04More.lean are about the Spec over a fixed skeleton; C04Zeroing.lean links the skeleton with zeroed source values to the networks the model of the library\'s zeroing operations returns (same solutions); model = Python code is C16_gen_* plus the structural correspondence',
                'the implementation-side sums use the implementation\'s own solver (validated by C01)']
 
 SCALES = [2.0, -1.0, 0.5, 1j, complex(1, 1), complex(-0.5, 2), -4.0, complex(0, -0.25)]
